@@ -1,5 +1,5 @@
 """C15 - MustNotAllocateDuringUnwind really never allocates and agrees with the default.
-Every scenario of the batteries of C01 (DWARF ground-truth walks), C03 (PE), C04 (fallback matrix),
+Every scenario of the batteries of C01 (DWARF ground-truth walks), C02 (Mach-O), C03 (PE), C04 (fallback matrix),
 C05 (DWARF grid incl. generic/expression paths), C11 (truncations) and C12 (presentations) is run
 under MustNotAllocateDuringUnwind with an instrumented global allocator: the number of allocator
 calls (alloc, dealloc, realloc) made by the unwinding thread inside unwind_frame, iter_frames and
@@ -10,13 +10,13 @@ differ; the capacity model predicts the MustNot result there and the corresponde
 import re, os
 import vlib
 from fhgen import *
-from props import C01, C03, C04, C05, C11, C12
+from props import C01, C02, C03, C04, C05, C11, C12
 
 RULE = ("batteries of C01, C03, C04, C05, C11, C12 (quick shapes) + expression-depth scenarios 62..67 under both "
         "policies; per unwinding call / iterator step: allocator calls == 0 under MustNot; line-by-line equality of "
         "the two policies where the storage suffices; distinct = (source battery, op, outcome class)")
 ASSUMPTIONS = ["allocator calls are observed for the thread that unwinds (counting global allocator in the harness)",
-               "Mach-O scenarios join when C02's encoders land"]
+               "every module format of the model is in the battery"]
 TRUSTED_BASE = ["counting #[global_allocator] in /verif/harness (counts alloc/dealloc/realloc of the script thread between entry and exit of the call)",
                 "modelled not verified: gimli's StoreOnStack evaluation (capacity model: push beyond 64 entries fails)"]
 
@@ -69,7 +69,7 @@ def generate(rng, tier):
     out = []
     q = "quick"
     n = 2 if tier == "quick" else 6
-    srcs = [("c01", C01), ("c03", C03), ("c04", C04), ("c05", C05), ("c11", C11), ("c12", C12)]
+    srcs = [("c01", C01), ("c02", C02), ("c03", C03), ("c04", C04), ("c05", C05), ("c11", C11), ("c12", C12)]
     for tag, m in srcs:
         for name, s in m.generate(rng, q)[:n]:
             out.append(("%s-%s" % (tag, name), repolicy(s, "must")))
